@@ -20,8 +20,8 @@ func init() { tableGens = append(tableGens, genManager) }
 func oneLine(s string) string { return strings.Join(strings.Fields(s), " ") }
 
 func mgDropCall(f string) bool {
-	return strings.HasPrefix(f, "span.") || strings.HasPrefix(f, "logger.") || strings.HasPrefix(f, "mw.LogEntryFrom(") || strings.HasPrefix(f, "otel.StartSpan") ||
-		strings.HasPrefix(f, "metrics.Observe") && false
+	return strings.HasPrefix(f, "span.") || strings.HasPrefix(f, "logger.") || strings.HasPrefix(f, "mw.LogEntryFrom(") || f == "mw.LogEntryFrom" || strings.HasPrefix(f, "otel.StartSpan") ||
+		strings.HasPrefix(f, "otel.AddErrorEvent") || f == "metrics.ObserveLogout" || f == "metrics.ObserveLogin" || f == "trace.SpanFromContext" && false
 }
 
 // %w operands of a fmt.Errorf call
@@ -276,16 +276,42 @@ func mgStmt(fset *token.FileSet, st ast.Stmt) []string {
 	case *ast.DeclStmt:
 		return []string{".other " + strconv.Quote(oneLine(src(fset, s)))}
 	case *ast.SwitchStmt:
+		// switch [tag] { case A: …; case B: …; default: … }  →  if "case A" { … } else { if "case B" { … } else { default … } }   (first match wins, no fallthrough)
 		var out []string
 		tag := ""
 		if s.Tag != nil {
-			tag = oneLine(src(fset, s.Tag))
+			tag = oneLine(src(fset, s.Tag)) + " == "
 		}
-		out = append(out, ".other "+strconv.Quote("switch "+tag))
+		if s.Init != nil {
+			out = append(out, mgStmt(fset, s.Init)...)
+		}
+		var def *ast.CaseClause
+		depth := 0
 		for _, cc := range s.Body.List {
 			cl := cc.(*ast.CaseClause)
-			out = append(out, ".ifBegin "+strconv.Quote("case "+strings.Join(exprTexts(fset, cl.List), ", ")))
+			if cl.List == nil {
+				def = cl
+				continue
+			}
+			for _, bs := range cl.Body {
+				if br, ok := bs.(*ast.BranchStmt); ok && br.Tok == token.FALLTHROUGH {
+					return []string{".other " + strconv.Quote("switch with fallthrough")}
+				}
+			}
+			if depth > 0 {
+				out = append(out, ".elseBegin")
+			}
+			out = append(out, ".ifBegin "+strconv.Quote("case "+tag+strings.Join(exprTexts(fset, cl.List), ", ")))
 			out = append(out, mgStmts(fset, cl.Body)...)
+			depth++
+		}
+		if def != nil {
+			if depth > 0 {
+				out = append(out, ".elseBegin")
+			}
+			out = append(out, mgStmts(fset, def.Body)...)
+		}
+		for ; depth > 0; depth-- {
 			out = append(out, ".ifEnd")
 		}
 		return out
@@ -317,20 +343,48 @@ var mgTargets = []mgTarget{
 	{"pkg/session/lock.go", "RedisLock.Release", "redisLockRelease"},
 }
 
+var hdTargets = []mgTarget{
+	{"pkg/handler/handler.go", "Standalone.GetSession", "getSession"},
+	{"pkg/handler/handler.go", "Standalone.Logout", "logout"},
+	{"pkg/handler/handler.go", "Standalone.LogoutLocal", "logoutLocal"},
+	{"pkg/handler/handler.go", "Standalone.LogoutCallback", "logoutCallback"},
+	{"pkg/handler/handler.go", "Standalone.LogoutFrontChannel", "logoutFrontChannel"},
+	{"pkg/handler/handler.go", "Standalone.Session", "sessionInfo"},
+	{"pkg/handler/handler.go", "Standalone.SessionRefresh", "sessionRefresh"},
+	{"pkg/handler/handler.go", "Standalone.SessionForwardAuth", "sessionForwardAuth"},
+	{"pkg/handler/handler.go", "handleGetSessionError", "handleGetSessionError"},
+	{"pkg/handler/handler.go", "Standalone.LoginCallback", "loginCallback"},
+	{"pkg/handler/handler_sso_proxy.go", "SSOProxy.GetSession", "proxyGetSession"},
+	{"pkg/handler/reverseproxy.go", "ReverseProxy.Handler", "proxyHandler"},
+	{"pkg/handler/reverseproxy.go", "getSessionWithValidToken", "getSessionWithValidToken"},
+}
+
 func genManager() {
+	genSkeletons("Manager.lean", "Ww.Gen.Manager", "Manager", "-- Control-flow skeletons of the session manager, the session reader and the stores, statement by statement in source order.\n", "", true, mgTargets)
+	genSkeletons("Handlers.lean", "Ww.Gen.Handlers", "Handlers", "-- Control-flow skeletons of the session-bearing HTTP handlers, statement by statement in source order (types from Ww.Gen.Manager).\n",
+		"import Ww.Gen.Manager\n", false, hdTargets)
+}
+
+func genSkeletons(file, ns, section, comment, imports string, declTypes bool, targets []mgTarget) {
 	fset := token.NewFileSet()
 	var b strings.Builder
+	b.WriteString(imports)
 	b.WriteString(header)
-	b.WriteString("-- Control-flow skeletons of the session manager, the session reader and the stores, statement by statement in source order.\n")
-	b.WriteString("namespace Ww.Gen.Manager\n\n")
-	b.WriteString("inductive MgVal where\n  | nil\n  | retryable                       -- retry.RetryableError(err)\n  | wrap (sentinels : List String)  -- fmt.Errorf with these %w operands\n  | expr (s : String)\n  deriving Repr, DecidableEq\n\n")
-	b.WriteString("inductive MgStmt where\n" +
-		"  | call (lhs : List String) (fn : String) (args : List String) (inner : List String)   -- lhs := fn(args); inner = calls made inside closure arguments\n" +
-		"  | retry (lhs : List String) (fn : String) (args : List String) (defaultRetry : Bool) (retryOn stopOn : List String)   -- retry.Do/DoValue around ONE call\n" +
-		"  | assign (lhs rhs : String)\n  | ifBegin (cond : String)\n  | elseBegin\n  | ifEnd\n  | ret (vals : List MgVal)\n  | deferCalls (fns : List String)\n" +
-		"  | closureBegin (lhs : List String)\n  | closureEnd\n  | loopBegin (cond : String)\n  | loopEnd\n  | selectCase (comm : String)\n  | selectEnd\n  | other (s : String)\n  deriving Repr, DecidableEq\n\n")
+	b.WriteString(comment)
+	b.WriteString("namespace " + ns + "\n\n")
+	if !declTypes {
+		b.WriteString("open Ww.Gen.Manager\n\n")
+	}
+	if declTypes {
+		b.WriteString("inductive MgVal where\n  | nil\n  | retryable                       -- retry.RetryableError(err)\n  | wrap (sentinels : List String)  -- fmt.Errorf with these %w operands\n  | expr (s : String)\n  deriving Repr, DecidableEq\n\n")
+		b.WriteString("inductive MgStmt where\n" +
+			"  | call (lhs : List String) (fn : String) (args : List String) (inner : List String)   -- lhs := fn(args); inner = calls made inside closure arguments\n" +
+			"  | retry (lhs : List String) (fn : String) (args : List String) (defaultRetry : Bool) (retryOn stopOn : List String)   -- retry.Do/DoValue around ONE call\n" +
+			"  | assign (lhs rhs : String)\n  | ifBegin (cond : String)\n  | elseBegin\n  | ifEnd\n  | ret (vals : List MgVal)\n  | deferCalls (fns : List String)\n" +
+			"  | closureBegin (lhs : List String)\n  | closureEnd\n  | loopBegin (cond : String)\n  | loopEnd\n  | selectCase (comm : String)\n  | selectEnd\n  | other (s : String)\n  deriving Repr, DecidableEq\n\n")
+	}
 	files := map[string]*ast.File{}
-	for _, t := range mgTargets {
+	for _, t := range targets {
 		f, ok := files[t.file]
 		if !ok {
 			f = parseFile(fset, t.file)
@@ -353,7 +407,7 @@ func genManager() {
 			}
 		}
 		if !found {
-			probs.add("Manager/"+t.lean, "function "+t.fn+" not found in "+t.file)
+			probs.add(section+"/"+t.lean, "function "+t.fn+" not found in "+t.file)
 			continue
 		}
 		fmt.Fprintf(&b, "/-- %s:%s -/\ndef %s : List MgStmt := [\n", t.file, t.fn, t.lean)
@@ -366,6 +420,6 @@ func genManager() {
 		}
 		b.WriteString("]\n\n")
 	}
-	b.WriteString("end Ww.Gen.Manager\n")
-	writeGen("Manager.lean", b.String())
+	b.WriteString("end " + ns + "\n")
+	writeGen(file, b.String())
 }
